@@ -73,6 +73,8 @@ def harness_hash():
                 fs.append(os.path.join(d, n))
     for n in os.listdir(os.path.join(ROOT, "bin")):
         fs.append(os.path.join(ROOT, "bin", n))
+    for n in os.listdir(os.path.join(ROOT, "scenarios")):  # regression scenarios are part of every corpus
+        fs.append(os.path.join(ROOT, "scenarios", n))
     return file_hash(fs)
 
 
